@@ -139,7 +139,9 @@ def run(ctx):
     cov["rule"] = ("one case = (parser, expected-length variant, valid encoding E, descriptor d) with the parser called on Apply(E, d) in a "
                    "child process; descriptors enumerated by TLC from Parser.tla for the length class |E|: every truncation n < |E|, every "
                    "position x 7 substitution values, every 4/8-byte window (aligned and unaligned) in the first 96 bytes x 6 length "
-                   "patterns, 6 kinds of appended garbage, window x truncation combinations (%s), plus every byte string up to length %d "
+                   "patterns, every 4-aligned 4/8-byte window x 20/38 multiplication-overflow values (2^64/es, 2^63/es, 2^32/es for element sizes "
+                   "2..16 with -1/+1/+100, MAX-0/1/79/80), the same value in two adjacent 8-byte fields, the unaligned windows for the "
+                   "microsecond parsers, 6 kinds of appended garbage, window x truncation combinations (%s), plus every byte string up to length %d "
                    "fed raw (length 3: the parsers without an expected-length argument whose call costs microseconds; the 20-50 ms-per-call "
                    "and file-backed parsers: up to length 1, in the quick tier length 0 and no combinations for them); parsers with an "
                    "expected-length argument run every class under 7 values (exact, 0, 1, -1, +1, 2^31, usize::MAX). "
